@@ -12,6 +12,6 @@ CONSTANTS
   MaxClose = 1
   MaxDeliveryFail = 0
   Unbuffered = FALSE
-  Script <- S2b
+  Script <- AllScripts
   RecordH = "full"
 INVARIANTS TypeOK BufferAccounting BoxHistory NoCrossTalk BlamesSender FatalResults NoLostWakeup NotifyConsistent PrintBehaviour
